@@ -353,4 +353,49 @@ def noLeftoverGroupB (S : Store) (T : Config) : Bool :=
   S.groups.all fun g => !managed g.id ||
     S.policies.any (fun p => T.policies.any (·.id == p.id) && p.rules.any (ruleUsesGroup g.id))
 
+
+/-! ### The same notions as propositions (what the theorems state)
+
+`convergedB`, `servicesB`, `noLeftoverGroupB` above are the decision procedures the oracle runs;
+the theorems are stated with the propositions below (address lists compared by membership, rule
+lists up to permutation). -/
+
+inductive Forall2 {α β : Type} (R : α → β → Prop) : List α → List β → Prop
+  | nil : Forall2 R [] []
+  | cons {a b l m} : R a b → Forall2 R l m → Forall2 R (a :: l) (b :: m)
+
+/-- The managed group of the target an entry of a target rule refers to, if any. -/
+def targetGroup (GT : List Group) (p : String) : Option Group :=
+  match groupRef p with
+  | some x => if managed x then findGroupLast GT x else none
+  | none => none
+
+/-- An entry of a rule on the manager is equivalent to an entry of a target rule: a managed
+target group is matched by a group on the manager with the same address set, anything else by
+the same text. -/
+def EPEquiv (GS GT : List Group) (pS pT : String) : Prop :=
+  match targetGroup GT pT with
+  | some gt => ∃ n g, pS = groupPath n ∧ findGroup GS n = some g ∧ ∀ x, x ∈ g.addrs ↔ x ∈ gt.addrs
+  | none => pS = pT
+
+def RuleEquiv (S : Store) (T : Config) (rS rT : Rule) : Prop :=
+  compactAttrs rS.attrs = compactAttrs rT.attrs ∧ rS.service = rT.service ∧
+  EPEquiv S.groups T.groups rS.src rT.src ∧ EPEquiv S.groups T.groups rS.dst rT.dst
+
+/-- The manager's policy `pid` carries, in some order, one equivalent rule per target rule. -/
+def PolicyEquiv (S : Store) (T : Config) (pid : String) (tr : List Rule) : Prop :=
+  ∃ p L, findPolicy S.policies pid = some p ∧ p.rules.Perm L ∧ Forall2 (RuleEquiv S T) L tr
+
+def Converged (S : Store) (T : Config) : Prop :=
+  (∀ pb ∈ T.policies, PolicyEquiv S T pb.id pb.rules) ∧
+  (∀ p ∈ S.policies, managed p.id = true → ∃ pb ∈ T.policies, pb.id = p.id)
+
+def ServicesConverged (S : Store) (T : Config) : Prop :=
+  (∀ t ∈ T.services, (findService S.services t.id).map (·.defn) = (findService T.services t.id).map (·.defn)) ∧
+  (∀ s ∈ S.services, managed s.id = true → ∃ t ∈ T.services, t.id = s.id)
+
+def NoLeftoverGroup (S : Store) (T : Config) : Prop :=
+  ∀ g ∈ S.groups, managed g.id = true →
+    ∃ p ∈ S.policies, (∃ pb ∈ T.policies, pb.id = p.id) ∧ ∃ r ∈ p.rules, ruleUsesGroup g.id r = true
+
 end NA.Nsx
